@@ -52,6 +52,25 @@ theorem number_arms_total :
     in the model they are functions of the message contents alone, as `Gen.sizeFields`/`Gen.marshal` are -/
 theorem no_size_cache : sizeCacheMentions = 0 := by decide
 
+/-- **C04 – C10, C16, C17 (the quantifier "× generator options")**: the options the generator accepts are exactly the
+    ones the model and the corpus pipeline account for — `apiversion` / `specialname` / `dest` choose names (import
+    paths, Go field names, the output path) and `debug` writes to stderr: none of them reaches a snippet's logic;
+    `filepermessage` selects the per-message file template, whose routing facts are regenerated alongside the
+    single-file ones; `enableunsafedecode` is the decoder-mode parameter `fast` of `Gen.unmarshal`. An option that is
+    added to (or dropped from) the generator makes this `decide` fail: what the new option does to the generated
+    code is then not covered by any theorem about the model until the model learns about it. (Independently of this
+    lemma the corpus pipeline generates, compiles and runs every schema with every boolean option it discovers
+    here switched on — `genpipe.BoolOptions`.) -/
+theorem generator_options_known :
+    generatorOptions = [("apiversion", "value"), ("dest", "string"), ("debug", "bool"), ("filepermessage", "bool"),
+      ("specialname", "value"), ("enableunsafedecode", "bool")] := by decide
+
+/-- **C07 (and C06, C08)**: neither the generator's Go code nor its templates look at the `reserved` declarations
+    of a message: a reserved number is, to the generated `Unmarshal`, a number the message type does not define —
+    `findField md num = none` in the model, the `default:` arm of the generated switch — and is retained like any
+    other unknown field -/
+theorem generator_ignores_reserved : reservedMentions = 0 := by decide
+
 /-- **C07**: in both file templates `Size()` counts the unknown fields, `MarshalTo` writes them with
     `EncodeRaw` after the known fields, and `Unmarshal` appends every skipped field to them -/
 theorem unknown_fields_handled : ∀ t ∈ unknownHandling, t.2.1 = true ∧ t.2.2.1 = true ∧ t.2.2.2 = true := by decide
